@@ -71,7 +71,30 @@ XAssign(targets, valActs, src, I) ==
               \* Assign(targets=[Starred(x)], value=tmp[i]) : "starred assignment target must be in a list or tuple"
               << <<"syntaxerror">> >>
 HasSyntaxError(acts) == \E i \in DOMAIN acts : acts[i][1] = "syntaxerror"
-X(st, I) == LET a == XAssign(st.targets, PyEval(st.e), <<"V">>, I) IN IF HasSyntaxError(a) THEN << <<"syntaxerror">> >> ELSE a
+XIndex(st, I) == LET a == XAssign(st.targets, PyEval(st.e), <<"V">>, I) IN IF HasSyntaxError(a) THEN << <<"syntaxerror">> >> ELSE a
+
+\* ---- the rewrite since the repair of the three difference classes (visit_Assign / _assign_from / make_interaction):
+\*   one plain target        : target = interact(value)
+\*   otherwise               : tmp = value; then every target is assigned from tmp, left to right (_assign_from):
+\*     a tuple / list target : Python itself unpacks tmp into temporaries, one level at a time (same protocol, same
+\*                             errors); each element is then assigned (or unpacked further) in order, a starred one as its name
+\*     a subscript target    : v = value; k = index; o[k] = interact('o', Key('index', k), None, v, True): value, then index, once
+XLeaf(t, valActs, src, I) ==
+  CASE t.t \in {"name", "star"} -> valActs \o (IF Instr(I, t.v) THEN << <<"interact", t.v, "none", src>> >> ELSE <<>>) \o << <<"bind", t.v, src>> >>
+    [] t.t = "sub" -> valActs \o PyEval(t.e) \o (IF Instr(I, t.v) THEN << <<"interact", t.v, "index", src>> >> ELSE <<>>) \o << <<"setitem", t.v, src>> >>
+    [] t.t = "attr" -> valActs \o (IF Instr(I, t.v) THEN << <<"interact", t.v, "attr", src>> >> ELSE <<>>) \o << <<"setattr", t.v, t.a, src>> >>
+RECURSIVE XFrom(_, _, _)
+XFrom(t, src, I) ==
+  IF t.t = "tuple"
+  THEN << <<"unpack", src, Len(t.elts), StarIx(t)>> >>
+       \o Cat(LAMBDA i : XFrom(t.elts[i], Append(src, IF t.elts[i].t = "star" THEN "rest" ELSE ToString(EltIx(t, i))), I), Len(t.elts))
+  ELSE XLeaf(t, <<>>, src, I)
+XNative(st, I) == IF Len(st.targets) = 1 /\ st.targets[1].t # "tuple" THEN XLeaf(st.targets[1], PyEval(st.e), <<"V">>, I)
+                  ELSE PyEval(st.e) \o Cat(LAMBDA i : XFrom(st.targets[i], <<"V">>, I), Len(st.targets))
+\* Mechanism = "index": the tree before fixes 8e2b697, f587b5f (unpacking rewritten to indexing, starred targets uncompilable, the index of a subscript
+\* store evaluated twice); "native": the repaired tree
+CONSTANT Mechanism
+X(st, I) == IF Mechanism = "index" THEN XIndex(st, I) ELSE XNative(st, I)
 
 \* ------------------------------------------------------------------ A level
 Erase(acts) == SelectSeq(acts, LAMBDA a : a[1] # "interact")
@@ -88,7 +111,7 @@ EvalCount(acts, k) == Cardinality({i \in DOMAIN acts : acts[i] = <<"eval", k>>})
 Signature(st, I) ==
   LET x == X(st, I)  p == Py(st) IN
   IF HasSyntaxError(x) THEN {"StarredTarget"}
-  ELSE (IF \E i \in DOMAIN p : p[i][1] = "unpack" THEN {"UnpackByIndex"} ELSE {}) \cup
+  ELSE (IF \E i \in DOMAIN x : x[i][1] = "getitem" THEN {"UnpackByIndex"} ELSE {}) \cup
        (IF \E i \in DOMAIN x : x[i][1] = "eval" /\ EvalCount(x, x[i][2]) > EvalCount(p, x[i][2]) THEN {"SubscriptIndexTwice"} ELSE {}) \cup
        \* anything that remains once the two known classes are set aside
        (IF NoProtocol(Erase(x)) # NoProtocol(p)
